@@ -94,9 +94,14 @@ def reads(e):
 
 
 def run(facts, serde_facts, tier):
-    inst, viol = [], []
+    inst, viol, und = [], [], []
 
-    def add(name, fn, ok, msg):
+    def add(name, fn, ok, msg, recognised=True):
+        """recognised=False: the routine is not written in the idiom this structural rule reads (nothing decided)."""
+        if not recognised:
+            inst.append({"name": name, "sp": fn["sp"], "props": ["C11"], "verdict": "idiom not recognised"})
+            und.append({"key": f"DELETE|{name}", "fn": fn["path"], "sp": fn["sp"], "props": ["C11"], "msg": msg})
+            return
         inst.append({"name": name, "sp": fn["sp"], "props": ["C11"], "verdict": "holds" if ok else "violated"})
         if not ok:
             viol.append({"key": f"DELETE|{name}", "fn": fn["path"], "sp": fn["sp"], "props": ["C11"], "msg": msg})
@@ -111,24 +116,10 @@ def run(facts, serde_facts, tier):
         bounds = [i for (i, n) in asr]
         ok = bool(bounds) and all(i < fw for i in bounds)
         add(f"GUARD {nm}: identifiers are range-checked before any write to *self", fn, ok,
-            f"{nm}: an out-of-range check comes after a write to *self (or is missing): checks at statements "
-            f"{bounds}, first write at statement {fw}")
-    # PAIR
-    ps = pushes(de["body"])
-    eb = [b for (r, b) in ps if r == "edges"]
-    ab = [b for (r, b) in ps if r == "adjacency"]
-    ok = bool(eb) and sorted(eb) == sorted(ab)
-    add("PAIR delete_edges: edges and adjacency are kept in step", de, ok,
-        "delete_edges: `edges` and `adjacency` are not pushed in the same blocks")
-    assigned = {}
-
-    def v(n):
-        if n["k"] == "assign":
-            assigned[place_str(n["args"][0])] = place_str(n["args"][1])
-    walk(de["body"], v)
-    ok = assigned.get("self.edges") == "edges" and assigned.get("self.adjacency") == "adjacency"
-    add("PAIR delete_edges: both fields are replaced by the filtered lists", de, ok,
-        f"delete_edges: self.edges / self.adjacency are not both reassigned from the filtered lists ({assigned})")
+            f"{nm}: an out-of-range check comes after a write to *self (or no check is visible in the body): checks at "
+            f"statements {bounds}, first write at statement {fw}", recognised=bool(bounds))
+    # PAIR (delete_edges keeps `edges` and `adjacency` in step) is decided semantically: both fields are the
+    # sub-lists selected by ONE mask (spec lax_delete_edges over the exact loop summary), whatever the loop style
     # COVER (pending unifications) + returned map
     assigned = {}
     assign_nodes = {}
@@ -139,12 +130,14 @@ def run(facts, serde_facts, tier):
     walk(dn["body"], v2)
     q = assigned.get("self.quotient")
     ok = False
-    msg = "delete_nodes_witness: self.quotient is not reassigned"
+    recognised = False
+    msg = "delete_nodes_witness: self.quotient is not reassigned from two filtered lists (idiom not recognised)"
     if q is not None and q["k"] == "tuple" and len(q["args"]) == 2:
         names = [place_str(x) for x in q["args"]]
         ps = pushes(dn["body"])
         b0 = [b for (r, b) in ps if r == names[0]]
         b1 = [b for (r, b) in ps if r == names[1]]
+        recognised = bool(b0) and bool(b1)
         ok = bool(b0) and sorted(b0) == sorted(b1)
         msg = "delete_nodes_witness: the two unification lists are not filtered jointly"
         # the loop that fills them reads the old pairs and the renumber map
@@ -152,7 +145,8 @@ def run(facts, serde_facts, tier):
         if not ({"self.quotient.0", "self.quotient.1"} <= rd):
             ok = False
             msg = "delete_nodes_witness: the new unification lists are not built from the old ones"
-    add("COVER delete_nodes_witness: pending unifications are filtered jointly and renumbered", dn, ok, msg)
+    add("COVER delete_nodes_witness: pending unifications are filtered jointly and renumbered", dn, ok, msg,
+        recognised=recognised)
     # returned map = map used
     tail = dn["body"].get("tail")
     ret = place_str(tail) if tail is not None else None
@@ -166,5 +160,6 @@ def run(facts, serde_facts, tier):
     walk(dn["body"], v3)
     ok = ret is not None and ret in idx_names
     add("COVER delete_nodes_witness: the reported map is the map used for renumbering", dn, ok,
-        f"delete_nodes_witness returns `{ret}` but renumbers through {sorted(idx_names)}")
-    return {"statement": __doc__, "instances": inst, "violations": viol, "floors": {"C11": 6}}
+        f"delete_nodes_witness returns `{ret}` but renumbers through {sorted(idx_names)}",
+        recognised=ret is not None and bool(idx_names))
+    return {"statement": __doc__, "instances": inst, "violations": viol, "undecided": und, "floors": {"C11": 4}}
